@@ -27,8 +27,8 @@ def serial():
     set_n_parallel_jobs(1)
 
 
-def build_spec(desc, mapping=None):
-    spec = yamlgen.load_spec(gs.spec_yaml(desc, mapping))
+def build_spec(desc, mapping=None, fixed_path=None):
+    spec = yamlgen.load_spec(gs.spec_yaml(desc, mapping), fixed_path=fixed_path)
     mp = desc.get("mapper") or {}
     for k, v in mp.items():
         if k == "metrics":
@@ -46,13 +46,13 @@ class MapperTimeout(Exception):
     """The in-process mapper run exceeded its wall-clock watchdog: inconclusive, never a verdict."""
 
 
-def run_mapper(desc, metrics=None, eval_in_detail=True, n_jobs=1, timeout=150, **kw):
+def run_mapper(desc, metrics=None, eval_in_detail=True, n_jobs=1, timeout=150, spec_path=None, **kw):
     """Returns the Mappings object; raises NoMapping when the mapper reports that no valid
     mapping exists."""
     from accelforge.mapper.FFM.main import map_workload_to_arch
     from accelforge.util.parallel import set_n_parallel_jobs
     set_n_parallel_jobs(n_jobs)
-    spec = build_spec(desc)
+    spec = build_spec(desc, fixed_path=spec_path)
     if metrics is not None:
         spec.mapper.metrics = metrics_of(metrics)
     from .timeouts import ItemTimeout, time_limit
@@ -82,6 +82,8 @@ def plain_tree(mapping):
                 node = {"t": "S", "tensors": [str(x) for x in n.tensors], "comp": str(n.component)}
                 if k == "Toll":
                     node["toll"] = True
+                if getattr(n, "persistent", False):
+                    node["persistent"] = True
                 out.append(node)
             elif k == "Temporal":
                 out.append({"t": "T", "rv": str(n.rank_variable), "tile": _num(n.tile_shape)})
@@ -114,6 +116,8 @@ def tree_yaml(tree):
         for n in nodes:
             if n["t"] == "S":
                 out.append({"!tag": "Toll" if n.get("toll") else "Storage", "tensors": list(n["tensors"]), "component": n["comp"]})
+                if n.get("persistent"):
+                    out[-1]["persistent"] = True
             elif n["t"] == "T":
                 out.append({"!tag": "Temporal", "rank_variable": n["rv"], "tile_shape": n["tile"]})
             elif n["t"] == "P":
